@@ -61,6 +61,17 @@ CLAIMS = {
         "note": "CUDA kernels out of scope. numba is trusted to compile the Python kernels faithfully (np.ceil/floor, range, % semantics). The Bessel polynomial is compared as text-independent exact rationals; "
                 "its approximation quality is the cited reference's.",
     },
+    "C09": {
+        "engine": "E3 value numbering, kernel loop-nest summaries, role inference for dispatch (axis tags)",
+        "category": "other",
+        "technique": "static analysis: canonical-term comparison of resize/downsample/upsample/_normalize_axes with their documented forms; unrolled evaluation of flip/circshift; loop-nest summaries of the six block kernels with per-axis role inference (count/size/stride) checked against the dispatch sites; shape-formula agreement across sites",
+        "text": "Decides that resize uses the centre-aligned default shifts, copy window and zero-initialised output; that down/upsample use the same strided slices (upsample into zeros); that flip reverses "
+                "exactly the normalised axes and circshift rolls each (axis, shift) pair; that for all six CPU block kernels the input index of axis -k is n*S+b with that axis' own count, size and stride "
+                "(roles inferred from the kernel body and matched with what the dispatch site passes), with the bounds test of that axis, that the scatter kernels iterate the inverse image "
+                "b in range(i % S, B, S), n = (i-b)//S, 0 <= n < N and accumulate with +=, and that (N-B+S)//S is one formula at its three sites. All shapes, strides (overlapping, gapped) and values are covered.",
+        "design_ref": "DESIGN.md section 4 C09",
+        "note": "CUDA kernels out of scope; numba compiles the Python kernels faithfully; numpy slicing/roll semantics trusted.",
+    },
     "C11": {
         "engine": "E6 paths, shape-provenance domain, E3 value numbering",
         "category": "other",
